@@ -68,4 +68,11 @@ theorem C13_trace_is_calls (step : LinkSt → ByteItem → LinkSt × Option Out)
         | _ => (byteCalls step st s).1 ++ [endEntry (byteCalls step st s).2]) :=
   Ross.bytePollsSt_eq_calls step st s
 
+/-- the same on CAN: the calls returning while the frames `s` are consumed — results, states, frames left in the
+controller — do not depend on the frames that follow, which all stay queued -/
+theorem C13_can_no_lookahead (st : RxSt) (s t : List CanItem) :
+    canCalls st (s ++ t) =
+      (shiftLeftCan t.length (canCalls st s).1 ++ (canCalls (canCalls st s).2 t).1, (canCalls (canCalls st s).2 t).2) :=
+  Ross.canCalls_append st s t
+
 end Ross.Props
